@@ -410,14 +410,26 @@ def _leaf_arcs(ctx, R: Roles, model, o):
                                        "polarity): summaries become arcs, leaves do not")
                 return
     if leaf_ok is None:
-        # the guard may sit at the call sites instead
-        sites = R.calls_to(R.init, ins) + R.calls_to(ins, ins)
+        # the guard may sit at the call sites instead: a leaf test of the argument, or an argument drawn from a leaf expansion
+        ev = _releval(ctx, R, model)
         missing = []
-        for c in sites:
-            owner = R.init if any(c is x for x in R.calls_to(R.init, ins)) else ins
-            arg = c.args[0] if c.args else None
-            cs = facts.node_conditions(prog, owner, c, ctx.typer)
-            if not any((lambda lt: lt and lt[1] and arg is not None and same(lt[0], arg))(leaf_test(t, p)) for t, p in cs):
+        for owner in (R.init, ins):
+            for c in R.calls_to(owner, ins):
+                arg = c.args[0] if c.args else None
+                cs = facts.node_conditions(prog, owner, c, ctx.typer)
+                if any((lambda lt: lt and lt[1] and arg is not None and same(lt[0], arg))(leaf_test(t, p)) for t, p in cs):
+                    continue
+                if owner is R.init and model.get('end_none') and any(
+                        (lambda nt: nt and isinstance(nt[0], ast.Name) and nt[0].id == model.get('end_param') and not nt[1])(
+                            none_test(t, p)) for t, p in cs):
+                    continue        # call site of the end_date mode, not used by WBS.critical_path
+                if owner is ins and arg is not None:
+                    try:
+                        ps = U.normalise(ev.contribution(cfg.node_containing(c), ast.List(elts=[arg], ctx=ast.Load()), cn))
+                        if ps and all(k and k[-1] in ('leaves', 'leaf?') for k in ps):
+                            continue
+                    except Unknown:
+                        pass
                 missing.append(c)
         if missing:
             o.refute(ins, call, 'leaf guard', f"nothing stops a task with children from becoming an arc: neither {ins.name} nor "
@@ -478,6 +490,8 @@ def _leaf_arcs(ctx, R: Roles, model, o):
                 and c.args[0].id == fors[-1].target.id and isinstance(fors[-1].iter, ast.Name) and fors[-1].iter.id == tasks_p):
             continue
         cs = facts.node_conditions(prog, init, c, ctx.typer, expand=False)
+        # a `task has no children` filter of the inserted task loses nothing: summaries never become arcs
+        cs = [(t, p) for t, p in cs if not ((lambda lt: lt and lt[1] and same(lt[0], c.args[0]))(leaf_test(t, p)))]
         if _conds_hold_when_none(cs, end_p):
             hit = True
             o.site(init, c, f"every element of `{tasks_p}` is inserted when {end_p} is None")
@@ -652,6 +666,13 @@ def _leaf_helper_checker(ctx, R: Roles, cache: dict):
     return checker
 
 
+def _releval(ctx, R: Roles, model) -> RelEval:
+    if 'releval' not in model:
+        model['leaf_cache'] = {}
+        model['releval'] = RelEval(ctx, R.insert, model['task_param'], _leaf_helper_checker(ctx, R, model['leaf_cache']))
+    return model['releval']
+
+
 REQ_OWN = ('predecessors', 'leaves')
 REQ_ANC = ('all_parents', 'predecessors', 'leaves')
 
@@ -678,9 +699,8 @@ def _inherit_registered(ctx, R: Roles, model, o_inh, o_reg):
         return
     model['pred_param'] = pred_param
     ids_arg = bind_args(call, add).get(pred_param)
-    cache: dict = {}
-    checker = _leaf_helper_checker(ctx, R, cache)
-    ev = RelEval(ctx, ins, task_p, checker)
+    ev = _releval(ctx, R, model)
+    cache = model['leaf_cache']
     try:
         ids = U.normalise(ev.contribution(an, ids_arg, an))
     except Unknown as e:
@@ -1117,7 +1137,10 @@ def _passes(ctx, R: Roles, model, o, o_eq):
     want = sorted([(+1, f"{lv}.end.{LF}"), (-1, f"{lv}.start.{ES}"), (-1, f"{lv}.units")])
     tests = []
     for t, p in sel['conds']:
-        tests.append((t, p, _tolerance_test(t, p, lv)))
+        tt = _tolerance_test(t, p, lv)
+        if tt is not None and not any(isinstance(n, ast.Attribute) and n.attr in (ES, LF) for n in ast.walk(tt[1])):
+            tt = None       # looks at the link but not at its times: not the slack test
+        tests.append((t, p, tt))
     slack_tests = [x for x in tests if x[2] is not None]
     if not slack_tests:
         if sel['conds']:
@@ -1590,17 +1613,45 @@ def _pure(ctx, R: Roles, o):
     if not ws:
         o.site(entry, entry.node, f"writes*(WBS.critical_path) = {{}} over {len(reach)} reachable functions")
     own = [f for f in reach if f.module is R.mod]
+    own_classes = {R.cls, R.node_cls, R.link_cls}
     for f in own:
         dws = eff.direct_writes(f)
-        bad = [w for w in dws if base(w.recv_type) in OWN_TASK_CLASSES or
-               (w.root not in ('fresh', 'self') and not w.root.startswith('param:') and w.kind != 'store')]
-        for w in bad:
-            if base(w.recv_type) in OWN_TASK_CLASSES:
-                o.refute(f, w.node, w.node, f"direct write to {base(w.recv_type)} state (`{unmangle(w.field)}`) inside the calculator")
+        bad = 0
+        for w in dws:
+            rt = base(w.recv_type)
+            if w.root == 'fresh' or rt in own_classes:
+                continue
+            bad += 1
+            if rt in OWN_TASK_CLASSES:
+                o.refute(f, w.node, w.node, f"direct write to {rt} state (`{unmangle(str(w.field))}`) inside the calculator")
             else:
-                o.undecided(f, w.node, w.node, f"write to `{unmangle(w.field)}` of an object of unknown origin ({w.root})")
+                o.undecided(f, w.node, w.node, f"write to `{unmangle(str(w.field))}` of an object of unknown type (origin: {w.root})")
+        # calls that leave the module and mutate their receiver / arguments: the calculator object itself is allocated by
+        # the call, but the tasks it holds are not - so every such edge is judged here, not at the entry
+        for ci in ctx.cg.calls_in(f):
+            if ci.kind == 'ctor':
+                continue
+            for callee in ci.targets:
+                if callee is None or callee.module is R.mod:
+                    continue
+                ws2 = eff.writes_star(callee)
+                if not ws2:
+                    continue
+                bind = eff._arg_binding(ci, callee, f)
+                for fld, root in sorted(ws2):
+                    r2 = eff._translate(root, ci, callee, f, bind)
+                    if r2 == 'fresh':
+                        continue
+                    bad += 1
+                    msg = (f"`{src(ci.node)[:70]}` reaches {callee.qual}, which writes `{unmangle(str(fld))}` of an object not allocated "
+                           f"by the calculator ({r2})")
+                    if ci.resolved and (callee.cls in OWN_TASK_CLASSES):
+                        o.refute(f, ci.node, ci.node, msg)
+                    else:
+                        o.undecided(f, ci.node, ci.node, msg + ("" if ci.resolved else " [receiver type unknown: by-name edge]"))
+                    break
         if not bad and dws:
-            o.site(f, f.node, f"{len(dws)} direct writes, all to calculator / node / link objects")
+            o.site(f, f.node, f"{len(dws)} direct writes, all to calculator / node / link objects; no mutating call leaves the module")
     # unresolved calls inside the calculator could hide a mutator
     for f in own:
         for ci in ctx.cg.calls_in(f):
